@@ -984,11 +984,11 @@ impl FromStr for Epoch {
                 details: "less than 7 characters",
             })
         } else {
-            let format = if &s[..2] == "JD" {
+            let format = if s.starts_with("JD") {
                 "JD"
-            } else if &s[..3] == "MJD" {
+            } else if s.starts_with("MJD") {
                 "MJD"
-            } else if &s[..3] == "SEC" {
+            } else if s.starts_with("SEC") {
                 "SEC"
             } else {
                 // Not a valid format, hopefully it's a Gregorian date.
@@ -996,16 +996,31 @@ impl FromStr for Epoch {
             };
 
             // This is a valid numerical format.
-            // Parse the time scale from the last three characters (TS trims white spaces).
-            let ts = TimeScale::from_str(&s[s.len() - 3..]).with_context(|_| ParseSnafu {
+            // The time scale is the trailing run of ASCII letters (two to five of them, e.g. TT, UTC, GPST, QZSST).
+            // ASCII letters are one byte each, so the split point is a character boundary.
+            let ts_len = s
+                .chars()
+                .rev()
+                .take_while(|c| c.is_ascii_alphabetic())
+                .count();
+            let (head, ts_str) = s.split_at(s.len() - ts_len);
+            let ts = TimeScale::from_str(ts_str).with_context(|_| ParseSnafu {
                 details: "parsing from string",
             })?;
-            // Iterate through the string to figure out where the numeric data starts and ends.
-            let start_idx = format.len();
-            let num_str = s[start_idx..s.len() - ts.formatted_len()].trim();
+            // What lies between the format identifier and the time scale is the numeric data.
+            let num_str = match head.get(format.len()..) {
+                Some(num_str) => num_str.trim(),
+                None => {
+                    return Err(HifitimeError::Parse {
+                        source: ParsingError::ValueError,
+                        details: "parsing as JD, MJD, or SEC",
+                    })
+                }
+            };
             let value: f64 = match lexical_core::parse(num_str.as_bytes()) {
-                Ok(val) => val,
-                Err(_) => {
+                // Infinities and NaN do not denote an epoch (the initializers below assert finiteness).
+                Ok(val) if f64::is_finite(val) => val,
+                _ => {
                     return Err(HifitimeError::Parse {
                         source: ParsingError::ValueError,
                         details: "parsing as JD, MJD, or SEC",
